@@ -742,10 +742,12 @@ type writes struct {
 	all   bool
 	calls map[string]bool // ghost call counters (interface methods with contracts) possibly advanced
 	ghosts map[string]bool // other ghost values ([]byte snapshots) possibly replaced
+	binReads map[string]types.Type // ghost lastreadof(T) possibly replaced
+	ints     map[string]bool       // integer ghosts possibly replaced
 }
 
 func newWrites() *writes {
-	return &writes{vars: map[types.Object]bool{}, globs: map[string]types.Type{}, fams: map[string]bool{}, calls: map[string]bool{}, ghosts: map[string]bool{}}
+	return &writes{vars: map[types.Object]bool{}, globs: map[string]types.Type{}, fams: map[string]bool{}, calls: map[string]bool{}, ghosts: map[string]bool{}, binReads: map[string]types.Type{}, ints: map[string]bool{}}
 }
 
 func (ex *Exec) havocWrites(w *writes, st *State, onlyOuter bool) {
@@ -772,6 +774,16 @@ func (ex *Exec) havocWrites(w *writes, st *State, onlyOuter bool) {
 		nv := freshValue("ghost|"+g, types.NewSlice(ghostByteT))
 		st.assumeValid(nv)
 		st.ghost[g] = nv
+	}
+	for k := range w.ints {
+		nv := freshValue("ghost|"+k, types.Typ[types.Int])
+		st.assumeValid(nv)
+		st.ghost[k] = nv
+	}
+	for k, t := range w.binReads {
+		nv := freshValue("ghost|binread", t)
+		st.assumeValid(nv)
+		st.ghost["bin.last:"+k] = nv
 	}
 	if len(w.fams) > 0 {
 		// allocation may have happened
@@ -1423,6 +1435,12 @@ func (ex *Exec) scanCall(call *ast.CallExpr, info *types.Info, w *writes, depth 
 			}
 			for g := range sub.ghosts {
 				w.ghosts[g] = true
+			}
+			for k, t := range sub.binReads {
+				w.binReads[k] = t
+			}
+			for k := range sub.ints {
+				w.ints[k] = true
 			}
 			// callee locals are irrelevant; pointer-receiver/pointer params targeting caller locals:
 			for _, a := range call.Args {
